@@ -130,7 +130,7 @@ theorem C18_R1_code {fs : Files} {la lb : List Str} {D : Nat} {A B : Assembly}
     (stA : Stages fs la A) (stB : Stages fs lb B) :
     stB.t = stA.t ∧ PW (AddrShift D) stA.ss4 stB.ss4 ∧ PW (AddrShift D) A.stmts B.stmts ∧
     (∀ (i : Nat) (s4 t t' : Stmt), stA.ss4[i]? = some s4 → A.stmts[i]? = some t → B.stmts[i]? = some t' →
-      (Unmoved D stA.ss4 s4 → t'.pkg.additional = t.pkg.additional ∧ stmtBytes t' = stmtBytes t) ∧
+      (Unmoved D stA.ss4 s4 → ListsConst stA.t s4 → t'.pkg.additional = t.pkg.additional ∧ stmtBytes t' = stmtBytes t) ∧
       (Moved D stA.ss4 s4 → t'.pkg.additional = shiftV D t.pkg.additional ∧
         ∀ bs, stmtBytes t = some bs →
           ∃ pre x, t.pkg.additional.int? = some x ∧ x + D < 65536 ∧ bs = pre ++ [x / 256, x % 256] ∧
@@ -355,6 +355,10 @@ classes, Lemmas/RelocCheck.lean) -/
 theorem signedA_cover : (stage4 signedA).map (coverB 0x100) = some true := by decide
 
 set_option maxRecDepth 1000000 in
+/-- (model batch 8) the program has no FCB / FDB list with a symbol or an expression in it -/
+theorem signedA_lists : (stage4 signedA).map literalListsB = some true := by decide
+
+set_option maxRecDepth 1000000 in
 /-- statement by statement (`unmovedB`, `movedB`): ORG, EQU and `LEAX A+N,PCR` are `Unmoved`; `FDB A+N` and `LDX #A-N`
 are `Moved` -/
 theorem signedA_classes :
@@ -396,7 +400,7 @@ theorem reloc_signed_witness : ∃ A B, assemble [] signedA = .ok A ∧ assemble
   intro i s4 t t' hs4 ht ht'
   obtain ⟨hu, hm⟩ := (C18_R1_code signed_shift hhd stA stB).2.2.2.1 i s4 t t' hs4 ht ht'
   rcases hcov stA i s4 hs4 with hc | hc
-  · exact .inl ⟨hc, hu hc⟩
+  · exact .inl ⟨hc, hu hc (listsConst_of_stage4 stA signedA_lists i s4 hs4)⟩
   · exact .inr ⟨hc, (hm hc).1⟩
 
 /-! ## why the side conditions are there (evaluated counterexamples) -/
@@ -599,6 +603,10 @@ set_option maxRecDepth 1000000 in
 theorem pcrNegA_classes :
     (stage4 pcrNegA).map (fun as => as.map (fun s => unmovedB 0x100 as s)) = some [true, true, true] := by decide
 
+set_option maxRecDepth 1000000 in
+/-- (model batch 8) the program has no FCB / FDB list with a symbol or an expression in it -/
+theorem pcrNegA_lists : (stage4 pcrNegA).map literalListsB = some true := by decide
+
 /-- (vi, continued) the repaired witness under the class theorems: every statement that enters `fixAll` is `Unmoved`,
 and statement by statement operand field and code are IDENTICAL in the two placements -/
 theorem reloc_signed_pcr_negative_target_unmoved : ∃ A B, assemble [] pcrNegA = .ok A ∧ assemble [] pcrNegB = .ok B ∧
@@ -628,8 +636,9 @@ theorem reloc_signed_pcr_negative_target_unmoved : ∃ A B, assemble [] pcrNegA 
       exact unmovedB_sound hm
   refine ⟨hcov, ?_⟩
   intro i t t' ht ht'
-  obtain ⟨s4, hs4, _⟩ := (fixAll_pw stA.hfix).get' ht
+  obtain ⟨s4, hs4, _⟩ := (fixAllL_pw stA.hfix).get' ht
   exact ((C18_R1_code pcrNeg_shift hhd stA stB).2.2.2.1 i s4 t t' hs4 ht ht').1 (hcov i s4 hs4)
+    (listsConst_of_stage4 stA pcrNegA_lists i s4 hs4)
 
 /-! ## a label as constant offset of a pointer register, `[label+1]` (repair batch B3) -/
 
@@ -665,6 +674,10 @@ theorem idx_shift : ShiftOrgP 0x100 (OrgOk 0x100) idxA idxB :=
 
 set_option maxRecDepth 1000000 in
 theorem idxA_cover : (stage4 idxA).map (coverB 0x100) = some true := by decide
+
+set_option maxRecDepth 1000000 in
+/-- (model batch 8) the lists of the program consist of literals -/
+theorem idxA_lists : (stage4 idxA).map literalListsB = some true := by decide
 
 set_option maxRecDepth 1000000 in
 /-- statement by statement (`unmovedB`, `movedRefB`, `movedAbsB`): ORG and `FCB 1` are `Unmoved`; `LDA T,X`, `LDB T+1,Y`
@@ -713,7 +726,7 @@ theorem reloc_indexed_witness : ∃ A B, assemble [] idxA = .ok A ∧ assemble [
   intro i s4 t t' hs4 ht ht'
   obtain ⟨hu, hm⟩ := (C18_R1_code idx_shift hhd stA stB).2.2.2.1 i s4 t t' hs4 ht ht'
   rcases hcov stA i s4 hs4 with hc | hc
-  · exact .inl ⟨hc, hu hc⟩
+  · exact .inl ⟨hc, hu hc (listsConst_of_stage4 stA idxA_lists i s4 hs4)⟩
   · exact .inr ⟨hc, hm hc⟩
 
 /-- the body of the wrap-around indexed sample: `A+N` with `N EQU -384` is negative when `A` is at `$0100`; as constant
@@ -751,6 +764,10 @@ theorem idxWrapA_classes :
 set_option maxRecDepth 1000000 in
 theorem idxWrapA_cover : (stage4 idxWrapA).map (coverModB 0x100) = some true := by decide
 
+set_option maxRecDepth 1000000 in
+/-- (model batch 8) the program has no FCB / FDB list with a symbol or an expression in it -/
+theorem idxWrapA_lists : (stage4 idxWrapA).map literalListsB = some true := by decide
+
 /-- the wrap-around indexed sample under the three-class theorems: both assemble to the images above; every statement
 that enters `fixAll` is `Unmoved`, `Moved` or `MovedMod`; the `Unmoved` statements (the PCR operand with the negative
 target among them) have IDENTICAL code, and for the `MovedMod` statements the 16-bit offset field moves by `$100` modulo
@@ -780,7 +797,8 @@ theorem reloc_indexed_wrap_witness : ∃ A B, assemble [] idxWrapA = .ok A ∧ a
       rw [stage4_eq stA h4]
       exact coverModB_sound hc
   · intro i s4 t t' hs4 ht ht'
-    exact ⟨((C18_R1_code idxWrap_shift hhd stA stB).2.2.2.1 i s4 t t' hs4 ht ht').1,
+    exact ⟨fun hc => ((C18_R1_code idxWrap_shift hhd stA stB).2.2.2.1 i s4 t t' hs4 ht ht').1 hc
+        (listsConst_of_stage4 stA idxWrapA_lists i s4 hs4),
       fun hc => (C18_R1_code_mod idxWrap_shift hhd stA stB i s4 t t' hs4 ht ht' hc).1⟩
 
 /-! ## `number - label` (repair batch B3): the fourth class -/
@@ -1025,7 +1043,7 @@ theorem C18_R1_code_any {fs : Files} {la lb : List Str} {D : Nat} {P : Nat → P
     (stA : Stages fs la A) (stB : Stages fs lb B) :
     stB.t = stA.t ∧ PW (AddrShiftAny D) stA.ss4 stB.ss4 ∧ PW (AddrShiftAny D) A.stmts B.stmts ∧
     (∀ (i : Nat) (s4 t t' : Stmt), stA.ss4[i]? = some s4 → A.stmts[i]? = some t → B.stmts[i]? = some t' →
-      (Unmoved D stA.ss4 s4 → t'.pkg.additional = t.pkg.additional ∧ stmtBytes t' = stmtBytes t) ∧
+      (Unmoved D stA.ss4 s4 → ListsConst stA.t s4 → t'.pkg.additional = t.pkg.additional ∧ stmtBytes t' = stmtBytes t) ∧
       (Moved D stA.ss4 s4 → t'.pkg.additional = shiftV D t.pkg.additional ∧
         ∀ bs, stmtBytes t = some bs →
           ∃ pre x, t.pkg.additional.int? = some x ∧ x + D < 65536 ∧ bs = pre ++ [x / 256, x % 256] ∧
@@ -1175,6 +1193,10 @@ set_option maxRecDepth 1000000 in
 theorem crossA_cover : (stage4 crossA).map (coverAny2B 0x100) = some true := by decide
 
 set_option maxRecDepth 1000000 in
+/-- (model batch 8) the program has no FCB / FDB list with a symbol or an expression in it -/
+theorem crossA_lists : (stage4 crossA).map literalListsB = some true := by decide
+
+set_option maxRecDepth 1000000 in
 theorem crossA_equCover : (stage4 crossA).bind (fun as => (stageT crossA).map (equCoverB 0x100 as)) = some true := by
   decide
 
@@ -1255,8 +1277,49 @@ theorem reloc_crossing_100_witness : ∃ A B, assemble [] crossA = .ok A ∧ ass
   · intro i s4 t t' hs4 ht ht'
     obtain ⟨hu, hm⟩ := (C18_R1_code_any cross_shift hhd stA stB).2.2.2.1 i s4 t t' hs4 ht ht'
     rcases hcov stA i s4 hs4 with hc | ⟨hc, _⟩
-    · exact .inl ⟨hc, hu hc⟩
+    · exact .inl ⟨hc, hu hc (listsConst_of_stage4 stA crossA_lists i s4 hs4)⟩
     · exact .inr ⟨hc, hm hc⟩
+
+/-! ## model batch 8: symbols, expressions and labels inside FCB / FDB lists -/
+
+def tblBody : List Str := ["K EQU 5\n", "A NOP\n", "T FDB A,T,K\n", "C FDB K,K+1,2\n"].map String.toList
+def tblA : List Str := orgLine [] 0x1000 :: tblBody
+def tblB : List Str := orgLine [] 0x1100 :: tblBody
+
+set_option maxRecDepth 1000000 in
+theorem tblA_ok : checkProgram tblA (fun A => A.image ==
+    some [0x12, 0x10, 0x00, 0x10, 0x01, 0x00, 0x05, 0x00, 0x05, 0x00, 0x06, 0x00, 0x02]) = true := by decide
+set_option maxRecDepth 1000000 in
+theorem tblB_ok : checkProgram tblB (fun A => A.image ==
+    some [0x12, 0x11, 0x00, 0x11, 0x01, 0x00, 0x05, 0x00, 0x05, 0x00, 0x06, 0x00, 0x02]) = true := by decide
+
+set_option maxRecDepth 1000000 in
+/-- statement by statement `listsConstB` on the label table of the program: the jump table `T FDB A,T,K` is NOT
+`ListsConst` (two elements are labels), the list of constants `C FDB K,K+1,2` is -/
+theorem tblA_lists :
+    (stage4 tblA).bind (fun as => (stageT tblA).map (fun T => as.map (listsConstB T)))
+      = some [true, true, true, false, true] := by decide
+
+set_option maxRecDepth 1000000 in
+/-- every statement of the sample is in the class `Unmoved` (the operand VALUE of a list statement holds no label) -/
+theorem tblA_classes :
+    (stage4 tblA).map (fun as => as.map (fun s => unmovedB 0x100 as s)) = some [true, true, true, true, true] := by decide
+
+/-- (model batch 8) why the `Unmoved` clauses ask for `ListsConst`: the jump table `T FDB A,T,K` is in the class `Unmoved`,
+it is not `ListsConst` (`tblA_lists`), and its code is NOT the same in the two placements: the label elements `A`, `T` move
+by `$100` (`1000 1001` / `1100 1101`), the EQU element `K` stays (`0005`).  The list of constants `C FDB K,K+1,2` is
+`ListsConst` and has the same code (`0005 0006 0002`).  For lists with label elements the relocation theorems make no
+claim; the metamorphic oracle covers them. -/
+theorem reloc_list_label_witness :
+    (∃ A, assemble [] tblA = .ok A ∧
+      A.image = some [0x12, 0x10, 0x00, 0x10, 0x01, 0x00, 0x05, 0x00, 0x05, 0x00, 0x06, 0x00, 0x02]) ∧
+    (∃ B, assemble [] tblB = .ok B ∧
+      B.image = some [0x12, 0x11, 0x00, 0x11, 0x01, 0x00, 0x05, 0x00, 0x05, 0x00, 0x06, 0x00, 0x02]) := by
+  constructor
+  · obtain ⟨A, hA, c⟩ := checkProgram_sound tblA_ok []
+    exact ⟨A, hA, by simpa using c⟩
+  · obtain ⟨B, hB, c⟩ := checkProgram_sound tblB_ok []
+    exact ⟨B, hB, by simpa using c⟩
 
 /-! ## axioms (the any-origin theorems) -/
 
@@ -1284,5 +1347,10 @@ theorem reloc_crossing_100_witness : ∃ A B, assemble [] crossA = .ok A ∧ ass
 #print axioms stages_refFitted
 #print axioms coveredAny_of_stages
 #print axioms reloc_crossing_100_witness
+#print axioms reloc_list_label_witness
+#print axioms reloc_signed_witness
+#print axioms reloc_finish
+#print axioms reloc_finish_equ
+#print axioms C18_R1_code
 
 end CoCo.Props
